@@ -33,8 +33,15 @@ C16_FIFO    == (J /\ T.el = 1) =>
                        => ((Pos(ArrOrder, a) < Pos(ArrOrder, b)) <=> (Pos(E.st.dos, a) < Pos(E.st.dos, b)))
 \* "a cancelled waiter neither takes nor gives away a slot it does not own": cancelling a request that is waiting
 \* (not inside do, not returned) lets nobody into do - not the waiter, not anyone else - and the waiter's call fails
-C16_NoStolenSlot == (J /\ E.act.a = "cancel" /\ E.act.r \notin SetOf(Prev.inDo) /\ Prev.ret[E.act.r] = "none" /\ E.settled) =>
-                      (E.st.dos = Prev.dos /\ E.st.ret[E.act.r] = "err")
+Arrived(r) == \E k \in 1..l : T.ev[k].act.a = "arrive" /\ T.ev[k].act.r = r
+DeadBeforeArrival(r) == \E k \in 1..(l - 1) : T.ev[k].act.a = "cancel" /\ T.ev[k].act.r = r /\ ~(\E j \in 1..k : T.ev[j].act.a = "arrive" /\ T.ev[j].act.r = r)
+C16_NoStolenSlot == /\ (J /\ E.act.a = "cancel" /\ Arrived(E.act.r) /\ E.act.r \notin SetOf(Prev.inDo) /\ Prev.ret[E.act.r] = "none" /\ E.settled) =>
+                         (E.st.dos = Prev.dos /\ E.st.ret[E.act.r] = "err")
+                    \* a request that arrives with a context that is already done: its call fails, it never runs, and nobody else is let in
+                    /\ (J /\ E.act.a = "arrive" /\ DeadBeforeArrival(E.act.r) /\ E.settled) =>
+                         (E.st.dos = Prev.dos /\ E.st.ret[E.act.r] = "err")
+                    \* (cancelling a context before the request is issued changes nothing)
+                    /\ (J /\ E.act.a = "cancel" /\ ~Arrived(E.act.r) /\ E.settled) => (E.st.dos = Prev.dos /\ E.st.ret = Prev.ret)
 C16_CancelledNeverRuns == J => \A r \in 1..N : (E.st.ret[r] = "err") => (T.ev[Len(T.ev)].st.ret[r] = "err")
 \* "once all calls have returned the limiter is idle again so that a new request is admitted immediately"
 C16_IdleAtEnd == (J /\ Last) => (T.allReturned /\ T.hung = <<>> /\ T.queueObjects = 0 /\ T.probeAdmitted
